@@ -1,6 +1,6 @@
 CONSTANTS
   MaxKids = 3
-  Extra = {"zz", "ex:t", "ex:Name", "key", "Name", "Statement", "Parent", "Ext", ":x", "x:"}
+  Extra = {"zz", "ex:t", "ex:Name", "key", "Name", "Statement", "Parent", "Ext", ":x", "x:", "a:b:c"}
 INIT Init
 NEXT Next
 INVARIANTS OneToOne Rejects Export
